@@ -34,6 +34,7 @@ Op ==
     \/ "ins_nt" \in OpSet /\ S.nv < MaxIns /\ \E k \in Keys : InsertNoTurn(k)
     \/ "ins_h" \in OpSet /\ S.nv < MaxIns /\ \E k \in Keys : KeyLoc[k] = "ondisk" /\ InsertHold(k)
     \/ "ins_h" \in OpSet /\ S.heldph # <<>> /\ DropHeld
+    \/ "ins_big" \in OpSet /\ S.nv < MaxIns /\ \E k \in Keys : KeyLoc[k] = "default" /\ InsertBig(k)
     \/ "rem" \in OpSet /\ \E k \in Keys : Remove(k)
     \/ "get" \in OpSet /\ \E k \in Keys : Get(k)
     \/ "sload" \in OpSet /\ \E k \in Keys : SLoad(k)
